@@ -18,5 +18,11 @@ TEXT = {
   "note": "Trusted: Lean kernel; tools/extract (Replace chains, IRI set); model of url.QueryEscape/utf8 decoding; direct decoders in the harness.",
   "technique": "Lean 4 theorems on byte-string filter models + regenerated replacement tables + differential ApplyFilter + decoder oracles",
  },
+ "C18": {
+  "text": "Theorems in Lean 4: the bounds filterSlice computes equal Python's slice normalisation for all integers, negative/huge/inverted, with or without the upper bound (slice_bounds_python), always lie inside the sequence (slice_bounds_in_range) and slice on a list is Python slicing (slice_is_python); center/ljust/rjust keep the text unaltered and add only spaces on the stated side with the exact counts (center_shape, center_pads_sum, ljust_shape, rjust_shape), erroring above the cap regenerated from the code; divisibleby by zero is False; yesno is three-way. All other listed filters and widthratio are decided by correspondence of the executable Lean model with ApplyFilter on exhaustive integer windows, plus independent Go references (Python slicing, padding shape, truncatechars, get_digit, %.nf, exact-rational round-half-up for widthratio).",
+  "ref": "DESIGN.md §6 C18",
+  "note": "Trusted: Lean kernel; Lean Float vs Go float64 agreement (checked by correspondence only); ASCII-only modelling of case mapping and Fields; filters date/stringformat/title/linebreaks/urlize/random/phone2numeric are outside the model.",
+  "technique": "Lean 4 theorems (omega over Int) on filter models + exhaustive-window differential ApplyFilter + reference oracles",
+ },
 }
 PENDING = {}
